@@ -1018,6 +1018,17 @@ class AlterInheritingObjectOrFragment(
                     None,
                     orig_value=cur_inh_fields,
                 )
+        elif self.has_attribute_value('inherited_fields'):
+            # The object already has the right set of inherited fields,
+            # but a value recorded in this command earlier may have been
+            # computed against an older state of the object (e.g. when
+            # the command was generated by propagation from an ancestor);
+            # applying it would undo updates made by other commands since.
+            self.set_attribute_value(
+                'inherited_fields',
+                frozenset(inh_fields) if inh_fields else None,
+                orig_value=cur_inh_fields,
+            )
 
     # HACK: Recursively propagate the value of is_derived. Use to deal
     # with altering computed pointers that are aliases. We should
